@@ -473,13 +473,13 @@ def expand_star_tuples(fnode):
     return n
 
 
-def normalize_module(tree, modname=None):
+def normalize_module(tree, modname=None, foreign=None):
     """N1 + N2 + N4 + N5 + N6 + N7 in place; returns counters."""
     if OFF:
         return {"inlined": 0, "tests": 0}
     literals_right(tree)
     index_forms(tree)
-    n_h = inline_unknown_helpers(tree, modname) if modname else 0
+    n_h = inline_unknown_helpers(tree, modname, foreign) if modname else 0
     unfold_expression_functions(tree)
     n_inl = 0
     for node in ast.walk(tree):
@@ -777,7 +777,7 @@ def _instantiate(fdef, args, defaults_from):
     return pre_stmts + body, (ast.Name(id=result, ctx=ast.Load()) if has_value else None)
 
 
-def inline_unknown_helpers(tree, modname):
+def inline_unknown_helpers(tree, modname, foreign=None):
     """N7: calls of same-module functions (or `self.` methods of the same class) that are NOT among the
     functions the rules were written against are replaced by the callee's body, when the call is the
     whole value of its statement (so hoisting the body keeps the evaluation order)."""
@@ -795,7 +795,8 @@ def inline_unknown_helpers(tree, modname):
                 if isinstance(m, ast.FunctionDef) and "%s.%s.%s" % (modname, st.name, m.name) not in known and _inlinable(m) \
                         and m.args.args and m.args.args[0].arg == "self":
                     cands[(st.name, m.name)] = m
-    if not cands:
+    foreign = foreign or {}
+    if not cands and not foreign:
         return 0
     total = 0
 
@@ -803,6 +804,11 @@ def inline_unknown_helpers(tree, modname):
         f = call.func
         if isinstance(f, ast.Name) and ("", f.id) in cands:
             return cands[("", f.id)], list(call.args)
+        # a helper of another module of the package (imported by name / called through the module alias)
+        if isinstance(f, ast.Name) and ("name", f.id) in foreign:
+            return foreign[("name", f.id)], list(call.args)
+        if isinstance(f, ast.Attribute) and isinstance(f.value, ast.Name) and ("attr", f.value.id, f.attr) in foreign:
+            return foreign[("attr", f.value.id, f.attr)], list(call.args)
         if isinstance(f, ast.Attribute) and isinstance(f.value, ast.Name) and f.value.id == "self" and cls and (cls, f.attr) in cands:
             return cands[(cls, f.attr)], [ast.Name(id="self", ctx=ast.Load())] + list(call.args)
         return None, None
@@ -958,3 +964,35 @@ def inline_unknown_helpers(tree, modname):
                             if not c_.body:
                                 c_.body.append(ast.Pass())
     return total
+
+
+def foreign_helpers(modules):
+    """For every module: helpers of OTHER modules of the package that the rules have never read and that can be
+    unfolded at their call sites there (their free names mean the same in both modules).
+    modules: name -> Module (indexed).  -> {module name: {call form: FunctionDef}}"""
+    import builtins
+
+    if OFF:
+        return {}
+    known = _known()
+    if known is None:
+        return {}
+    out = {}
+    for hname, hm in modules.items():
+        for st in hm.tree.body:
+            if not (isinstance(st, ast.FunctionDef) and "%s.%s" % (hname, st.name) not in known and _inlinable(st)):
+                continue
+            local = {a.arg for a in st.args.args} | {x.id for x in ast.walk(st) if isinstance(x, ast.Name) and isinstance(x.ctx, ast.Store)} \
+                | {x.arg for x in ast.walk(st) if isinstance(x, ast.arg)} | {x.name for x in ast.walk(st) if isinstance(x, ast.FunctionDef)}
+            free = {x.id for x in ast.walk(st) if isinstance(x, ast.Name)} - local
+            for mname, mm in modules.items():
+                if mname == hname:
+                    continue
+                if not all(hasattr(builtins, n) or (hm.aliases.get(n) is not None and mm.aliases.get(n) == hm.aliases.get(n)) for n in free):
+                    continue
+                for alias, target in mm.aliases.items():
+                    if target == "spowtd.%s" % hname:
+                        out.setdefault(mname, {})[("attr", alias, st.name)] = st
+                    elif target == "spowtd.%s.%s" % (hname, st.name):
+                        out.setdefault(mname, {})[("name", alias)] = st
+    return out
